@@ -1,7 +1,10 @@
 package security
 
 import (
+	"math/big"
+
 	vr "github.com/free5gc/ike/internal/verifrt"
+	"github.com/free5gc/ike/message"
 	"github.com/free5gc/ike/security/dh"
 	"github.com/free5gc/ike/security/encr"
 	"github.com/free5gc/ike/security/integ"
@@ -167,4 +170,49 @@ func HChildKeys() {
 		return
 	}
 	check(c2, ".second")
+}
+
+// HNewIKESAKey (C07): an SA built from a proposal through NewIKESAKey: the local public value and the
+// keys follow from the exponent the random source delivered, the peer's public value, the nonces and
+// the SPIs in the order initiator, responder.  Params: dh idx, encr idx, integ idx, prf idx.
+func HNewIKESAKey() {
+	di, ei, ii, pi := vr.Param(0), vr.Param(1), vr.Param(2), vr.Param(3)
+	p := &message.Proposal{ProposalNumber: 1, ProtocolID: message.TypeIKE}
+	et, err := encr.ToTransform(encr.StrToType(vEncrNames[ei]))
+	vr.Assert("c07.new.totransform", err == nil)
+	p.EncryptionAlgorithm = append(p.EncryptionAlgorithm, et)
+	p.IntegrityAlgorithm = append(p.IntegrityAlgorithm, integ.ToTransform(integ.StrToType(vIntegNames[ii])))
+	p.PseudorandomFunction = append(p.PseudorandomFunction, prf.ToTransform(prf.StrToType(vPrfNames[pi])))
+	p.DiffieHellmanGroup = append(p.DiffieHellmanGroup, dh.ToTransform(dh.StrToType(vDhNames[di])))
+	peer := vr.Bytes(vDhLen[di])
+	nonce := vr.Bytes(8)
+	si, sr := vr.U64(), vr.U64()
+	k, pub, err := NewIKESAKey(p, append([]byte{}, peer...), append([]byte{}, nonce...), si, sr)
+	vr.Assert("c07.new.noerr", err == nil && k != nil)
+	if err != nil || k == nil {
+		return
+	}
+	log := vr.RandIntLog()
+	vr.Assert("c07.new.one-exponent", len(log) >= 1)
+	if len(log) < 1 {
+		return
+	}
+	x := new(big.Int).SetBytes(log[len(log)-1])
+	g := dh.StrToType(vDhNames[di])
+	vr.Assert("c07.new.public", vr.EqBytes(pub, g.GetPublicValue(x)))
+	shared := g.GetSharedKey(x, new(big.Int).SetBytes(peer))
+	h := vPrfHash[pi]
+	skeyseed := vr.HMAC(h, nonce, shared)
+	seed := append(append(append([]byte{}, nonce...), vU64Bytes(si)...), vU64Bytes(sr)...)
+	lp, la, le := vPrfLen[pi], vIntegKey[ii], vEncrKey[ei]
+	ks := vPrfPlus(h, skeyseed, seed, 3*lp+2*la+2*le)
+	o := 0
+	next := func(n int) []byte { r := ks[o : o+n]; o += n; return r }
+	vr.Assert("c07.new.sk_d", vr.EqBytes(k.SK_d, next(lp)))
+	vr.Assert("c07.new.sk_ai", vr.EqBytes(k.SK_ai, next(la)))
+	vr.Assert("c07.new.sk_ar", vr.EqBytes(k.SK_ar, next(la)))
+	vr.Assert("c07.new.sk_ei", vr.EqBytes(k.SK_ei, next(le)))
+	vr.Assert("c07.new.sk_er", vr.EqBytes(k.SK_er, next(le)))
+	vr.Assert("c07.new.sk_pi", vr.EqBytes(k.SK_pi, next(lp)))
+	vr.Assert("c07.new.sk_pr", vr.EqBytes(k.SK_pr, next(lp)))
 }
